@@ -72,6 +72,8 @@ def gen_ann(rng, d, hashable=False, top=False):
     if k == 'elems':
         o = rng.choice(ELEM_ORIGINS_T)
         s = sp if o in BUILTIN_OK else 'typing'
+        if o in ('Iterable', 'Collection', 'Container', 'Sequence') and rng.random() < 0.25:
+            return ['gen', s, o, [rng.choice([['cls', 'int'], ['cls', 'str'], ['cls', 'bytes'], ['cls', 'object']])]]
         return ['gen', s, o, [gen_ann(rng, d - 1, o in ('Set', 'FrozenSet', 'AbstractSet', 'MutableSet', 'KeysView'))]]
     if k == 'mapping':
         o = rng.choice(MAP_ORIGINS_T)
@@ -200,6 +202,10 @@ def gen_conf(rng, a, size=3):
         # str / bytes as sequences of str / int
         if o in ('Iterable', 'Collection', 'Container', 'Sequence') and args[0] == ['cls', 'str'] and rng.random() < 0.2:
             return ['str', [97, 98]]
+        if o in ('Iterable', 'Collection', 'Container', 'Sequence') and args[0] in (['cls', 'int'], ['cls', 'object'], ['any']) and rng.random() < 0.25:
+            return ['bytes', [1, 2]]            # bytes iterate as ints
+        if o in ('Iterable', 'Collection', 'Container', 'Sequence') and rng.random() < 0.06:
+            return rng.choice([['str', []], ['bytes', []]])     # no elements: conforms whatever the element type
         return [c, elems]
     return None
 
@@ -257,6 +263,8 @@ def corrupt(rng, a, v, hashable=False):
         elif v[0] in ('list', 'tuple', 'set', 'frozenset', 'deque', 'keys', 'values', 'iter') and len(args) == 1:
             hh = v[0] in ('set', 'frozenset', 'keys')
             children = [((args[0], hh), i) for i in range(len(v[1]))]
+    if k == 'gen' and a[2] in ('Iterable', 'Collection', 'Container', 'Sequence') and a[3] == [['cls', 'bytes']] and rng.random() < 0.5 and not hashable:
+        return ['bytes', [97, 98]]          # bytes iterate as ints, not as bytes
     # structural corruption at this node: a value of another container class / arity
     if not children or rng.random() < 0.25:
         if k == 'gen' and a[2] == 'Tuple' and v[0] == 'tuple' and rng.random() < 0.6:
